@@ -160,10 +160,26 @@ def lambda_or_func_body_calls(repo: Repo, fi: FuncInfo, e: ast.AST) -> List[ast.
     if isinstance(e, ast.Lambda):
         return [c for c in ast.walk(e.body) if isinstance(c, ast.Call)]
     if isinstance(e, ast.Name):
-        for nf in repo.nested(fi):
-            if nf.name == e.id and nf.parent is fi:
-                return [c for c in q.walk_body(nf.node) if isinstance(c, ast.Call)]
+        nf = resolve_callable_name(repo, fi, e.id)
+        if nf is not None:
+            return [c for c in own_walk(nf.node) if isinstance(c, ast.Call)]
     return []
+
+
+def resolve_callable_name(repo: Repo, fi: FuncInfo, name: str) -> Optional[FuncInfo]:
+    """The function a bare name denotes inside ``fi``: a nested def of ``fi`` itself, of one of its enclosing
+    functions (closure scope chain, innermost first), or a module-level function of the same module — provided
+    the name is not re-bound as a plain local on the way."""
+    cur: Optional[FuncInfo] = fi
+    while cur is not None:
+        for nf in repo.nested(cur):
+            if nf.name == name and nf.parent is cur and isinstance(nf.node, q.FuncNode):
+                return nf
+        if any(isinstance(st, (ast.Assign, ast.AnnAssign, ast.AugAssign)) and name in q.assigned_paths(st) for st in own_walk(cur.node)) or name in cur.params():
+            return None
+        cur = cur.parent
+    f = fi.module.funcs.get(name)
+    return f if f is not None and isinstance(f.node, q.FuncNode) else None
 
 
 # ---------------------------------------------------------------------------
@@ -505,10 +521,8 @@ def callable_cfg(repo: Repo, fi: FuncInfo, e: ast.AST):
     (its body turned into statements, conditional expressions into if-statements).  None if unknown."""
     from .cfg import build
     if isinstance(e, ast.Name):
-        for nf in repo.nested(fi):
-            if nf.name == e.id and nf.parent is fi and isinstance(nf.node, q.FuncNode):
-                return nf.cfg
-        return None
+        nf = resolve_callable_name(repo, fi, e.id)
+        return nf.cfg if nf is not None else None
     if isinstance(e, ast.Lambda):
         def stmts(x):
             if isinstance(x, ast.IfExp):
